@@ -378,6 +378,8 @@ def draw_config(ch: Choices, doc_len: int = 1, middlewares: bool = False, handle
     }
     if is_async:
         cfg['concurrent_batch'] = not ch.flag(1, 4, 'srv.sequential_batch')
+    # transparent user hooks (message subclasses that add nothing, delegating loader / dumper / encoder / decoder)
+    cfg['hooks'] = ch.flag(1, 4, 'srv.hooks')
     if middlewares:
         cfg['middlewares'] = [ch.choice(MW_KINDS, 'srv.mw.kind') for _ in range(ch.draw(4, 'srv.mw.n'))]
         cfg['mw_plain'] = [ch.flag(1, 3, 'srv.mw.plain') for _ in cfg['middlewares']]
@@ -437,6 +439,14 @@ class ServerUnderTest:
         kwargs: Dict[str, Any] = dict(middlewares=mws_arg, error_handlers=table, max_batch_size=cfg['max_batch_size'])
         if is_async and 'concurrent_batch' in cfg:
             kwargs['concurrent_batch'] = cfg['concurrent_batch']
+        if cfg.get('hooks') == 'own_encoder':
+            from .hooks import OwnRenderingEncoder
+            kwargs['json_encoder'] = OwnRenderingEncoder
+            w.probe('server.own_encoder')
+        elif cfg.get('hooks'):
+            from .hooks import server_hooks
+            kwargs.update(server_hooks())
+            w.probe('server.transparent_hooks')
         if extra_kwargs:
             kwargs.update(extra_kwargs)
         cls = pjrpc.server.AsyncDispatcher if is_async else pjrpc.server.Dispatcher
